@@ -9,11 +9,11 @@ import (
 	"math/big"
 	"time"
 
+	"github.com/ChainSafe/sygma-relayer/config"
 	"github.com/ChainSafe/sygma-relayer/config/chain"
 	"github.com/btcsuite/btcd/btcutil"
 	"github.com/btcsuite/btcd/chaincfg"
 	"github.com/creasty/defaults"
-	"github.com/mitchellh/mapstructure"
 )
 
 type RawResource struct {
@@ -93,7 +93,7 @@ func NewBtcConfig(chainConfig map[string]interface{}) (*BtcConfig, error) {
 		return nil, err
 	}
 
-	err = mapstructure.Decode(chainConfig, &c)
+	err = config.DecodeExact(chainConfig, &c)
 	if err != nil {
 		return nil, err
 	}
